@@ -13,14 +13,14 @@ CLAIMED = {
         text='Bounded symbolic execution of the real validity kernels (_validate_matrix/_check_conns, Python source of the '
              'numba functions, reached through the real validate_matrix) on a matrix of unbounded non-negative symbolic '
              'integers; z3 refutes V(M)!=Spec(M) and Spec(M)!=(M in enumerated list) per (connector settings, existence '
-             'pattern incl. absent connectors, explicit degree override lists with gaps, degree caps) for <=3x3 connectors; '
+             'pattern incl. absent connectors, explicit degree override lists with gaps, degree caps) for <=3x3 connectors and 1x4, 4x1, 2x4, 4x2; '
              'the enumerator and the counter run concretely and their output is the right-hand side of the second query; '
              'counts (three APIs) and query order (filtered or abandoned iteration first) are compared with the listing; concrete '
              'histories: existence patterns built with shared override dicts and exists masks, and two different settings '
              'enumerated one after the other in one cache.',
         note='Trusted: z3 (LIA), the independent specification in spec/conn.py, the symx engine (each path is cross-checked '
-             'by one native jitted run). Bounds: <=3x3 connectors, alphabet of 18(+3) connector types, patterns from '
-             'pools/conn.py; entries unbounded. Outside: negative entries, >3 connectors per side. Thorough tier: the closing '
+             'by one native jitted run). Bounds: <=3x3 connectors plus 1x4/4x1/2x4/4x2, alphabet of 18(+3) connector types, patterns from '
+             'pools/conn.py; entries unbounded. Outside: negative entries, >3 connectors on both sides, >4 on one side. Thorough tier: the closing '
              'queries of a sample of instances also go through the z3 4.8.12 and cvc5 1.0.3 binaries.',
         technique=TECH+'solver-decided set equalities over unbounded integer matrices',
         ref='DESIGN.md section 4 (C09)'),
